@@ -7,7 +7,8 @@
 (* the never-list, ip: Ip with the always-list.  Every history of at most  *)
 (* MaxLen operations over {set a value, install a named set, clear, round  *)
 (* trip into a new context, execute `x in $l` / `s in $l` / `ip in $l`}    *)
-(* on any live context is emitted and replayed step by step.               *)
+(* on any live context - directly or through a temporary borrow of it - is *)
+(* emitted and replayed step by step.                                      *)
 (***************************************************************************)
 EXTENDS WfContext, Json
 CONSTANTS MaxLen
@@ -26,7 +27,12 @@ OpsOn(c) == {[op |-> "set", c |-> c, how |-> "name", fsch |-> 1, name |-> "x", v
              [op |-> "set", c |-> c, how |-> "name", fsch |-> 1, name |-> "ip", v |-> VIp(<<1, 2, 3, 4>>)],
              [op |-> "setlist", c |-> c, li |-> 1, m |-> M1], [op |-> "clear", c |-> c], [op |-> "roundtrip", c |-> c],
              [op |-> "exec", c |-> c, fsch |-> 1, ts |-> F("x")], [op |-> "exec", c |-> c, fsch |-> 1, ts |-> F("s")],
-             [op |-> "exec", c |-> c, fsch |-> 1, ts |-> F("ip")]}
+             [op |-> "exec", c |-> c, fsch |-> 1, ts |-> F("ip")],
+             \* through a temporary borrow (a guard over the same storage; dropping it writes through): a value set, a named
+             \* set installed, a filter executed
+             [op |-> "borrow", c |-> c, ops |-> <<[op |-> "set", c |-> c, how |-> "name", fsch |-> 1, name |-> "x", v |-> I5]>>],
+             [op |-> "borrow", c |-> c, ops |-> <<[op |-> "setlist", c |-> c, li |-> 1, m |-> M1]>>],
+             [op |-> "borrow", c |-> c, ops |-> <<[op |-> "exec", c |-> c, fsch |-> 1, ts |-> F("x")]>>]}
 Init == w = <<NewCtx(S, 1)>> /\ ops = <<>> /\ rs = <<>> /\ done = FALSE
 DoOp == /\ ~done /\ Len(ops) < MaxLen
         /\ \E c \in 1..Len(w) : \E o \in OpsOn(c) :
